@@ -1,4 +1,5 @@
 import WowVerif.Model.C13M2
+import WowVerif.Lemmas.C13Anim
 /-!
 C13 — M2: relocation of preserved key-frame data keeps every track's data and every aliasing.
 
@@ -147,5 +148,25 @@ theorem emit_bounded (seen : List Nat) (blobs : List (Nat × Bytes)) :
 /-! ## non-vacuity: two tracks sharing a time line, each with its own values -/
 example : relocated 100 [(0x1000, [1, 2]), (0x1100, [3, 4, 5]), (0x1000, [1, 2]), (0x1200, [6])] = [some 100, some 102, some 100, some 105] := by decide
 example : emit [] [(0x1000, [1, 2]), (0x1100, [3, 4, 5]), (0x1000, [1, 2]), (0x1200, [6])] = [1, 2, 3, 4, 5, 6] := by decide
+
+/-! ## animation files (Model.C13Anim: the modern .anim container at the level of 32-bit words) -/
+
+/-- AN ANIMATION SECTION SURVIVES WRITE → PARSE wherever it lies in the file: with the size the writer records in the
+    entry table (header plus one offset per bone) the reader returns the section — a bone without tracks as the empty
+    bone — and stops exactly at the section's end -/
+theorem anim_section_roundtrip (pos : Nat) (s : Anim.Section) (h : ∀ b ∈ s.bones, Anim.BoneOk b) (rest : List Nat) :
+    Anim.parseSection (Anim.entrySize s) (Anim.writeSection pos s ++ rest) = some (s.norm, rest) :=
+  Anim.section_roundtrip pos s h rest
+
+/-- A WHOLE ANIMATION FILE SURVIVES WRITE → PARSE: header words, every section found through its entry (id, offset, size),
+    for any number of sections, bones and keys (each track with as many values as time stamps) -/
+theorem anim_file_roundtrip (f : Anim.File) (h : ∀ s ∈ f.sections, ∀ b ∈ s.bones, Anim.BoneOk b) :
+    Anim.parseFile (Anim.writeFile f) = some f.norm := Anim.file_roundtrip f h
+
+/-! non-vacuity: two bones, one without tracks (its id is not stored), one with a translation and an empty rotation track -/
+example : Anim.parseFile (Anim.writeFile { version := 1, unknown := 0, sections := [{ id := 4, start := 0, stop := 100, bones :=
+    [{ id := 7, t := none, r := none, s := none }, { id := 2, t := some { ts := [0, 50], vals := [1, 2, 3, 4, 5, 6] }, r := some { ts := [], vals := [] }, s := none }] }] })
+  = some { version := 1, unknown := 0, sections := [{ id := 4, start := 0, stop := 100, bones :=
+    [{ id := 0, t := none, r := none, s := none }, { id := 2, t := some { ts := [0, 50], vals := [1, 2, 3, 4, 5, 6] }, r := some { ts := [], vals := [] }, s := none }] }] } := by decide +kernel
 
 end Wv.M2
